@@ -19,6 +19,8 @@ Program == JsonDeserialize(IOEnv.NS_FILE)
 \* Program.statements : sequence of [module, names, dels] ; names : sequence of <<name, origin>> ; dels : names deleted
 \* Program.observed   : sequence of <<name, origin>>   (final vars(aotools), restricted to names bound by the statements)
 \* Program.fourier    : sequence of names that make up the Fourier API
+\* Program.api        : sequence of <<name, owner>>: every public function / class DEFINED in a star-imported sub-module, with that
+\*                      sub-module as its owner (any package of the library can be replayed, not only the top-level one)
 
 VARIABLES env, pc
 vars == <<env, pc>>
@@ -43,6 +45,8 @@ SingleBinding == \A b1, b2 \in env : b1[1] = b2[1] => b1 = b2
 EnvMatchesObserved == Finished => env = { <<Program.observed[i][1], Program.observed[i][2]>> : i \in 1..Len(Program.observed) }
 \* every Fourier entry point exported by the package is the Fourier module's own
 FourierAPIUnshadowed == Finished => \A i \in 1..Len(Program.fourier) : Lookup(Program.fourier[i]) = {"aotools.fouriertransform"}
+\* no public function or class of a sub-module is shadowed by a later import of the same name from somewhere else
+APIUnshadowed == Finished => \A i \in 1..Len(Program.api) : Lookup(Program.api[i][1]) = {Program.api[i][2]}
 \* reported, not a listed property: names that are bound more than once on the way (shadowing events)
 ShadowingEvents == [k \in 1..Len(Stmts) |-> Stmts[k].module]
 
